@@ -58,9 +58,8 @@ def run(ctx):
     f = ctx.fn(U + "ShapeSet::insert")
     if f:
         m = {}
-        for blk, i, st in f.stmts():
-            if st["k"] == "assign" and st["p"]["proj"] and st["p"]["local"] == 1:
-                fld = [e for e in st["p"]["proj"] if e["k"] == "field"][-1]["name"]
+        for blk, fld, st in ctx.field_writes(f, 1):
+            if True:
                 for d in ctx.pc_strs(f, blk):
                     for a in d:
                         mm = re.match(r"^discr\(a2\)=(\w+)$", a)
@@ -131,9 +130,8 @@ def run(ctx):
     f = ctx.fn(O + "DataShape::set_word")
     if f:
         m = {}
-        for blk, i, st in f.stmts():
-            if st["k"] == "assign" and st["p"]["proj"] and st["p"]["local"] == 1:
-                fld = [e for e in st["p"]["proj"] if e["k"] == "field"][-1]["name"]
+        for blk, fld, st in ctx.field_writes(f, 1):
+            if True:
                 words = None
                 for d in ctx.pc_strs(f, blk):
                     pos = {mm.group(1) for a in d for mm in [re.search(r', "(\w+)"\)=True$', a)] if mm}
